@@ -475,7 +475,8 @@ func (ec *EphemeralContractor) UpdateChainState(reverted []chain.RevertUpdate, a
 			case fced.Resolution != nil:
 				ec.contractElements[fced.V2FileContractElement.ID] = fced.V2FileContractElement.Copy()
 			case fced.Revision != nil:
-				fced.V2FileContractElement.V2FileContract = *fced.Revision
+				// the revision is no longer confirmed: the element holds the
+				// contract as it was before
 				ec.contractElements[fced.V2FileContractElement.ID] = fced.V2FileContractElement.Copy()
 			}
 		}
